@@ -21,6 +21,8 @@ func init() {
 			c.floor("ABSORB", 100)
 			c.runBoundDirection("BOUNDDIR", c.libPkgs()[:3], nil)
 			c.floor("BOUNDDIR", 4)
+			c.runCanonFirst("CANON", append(c.libPkgs()[:4:4], c.fixturePkg("g")))
+			c.floor("CANON", 3)
 		},
 		SelfTest: []Mutation{
 			{Name: "height map solid checks only z", File: "toolbox3d/height_map.go",
